@@ -60,3 +60,16 @@ func lemmaRoundTripOnKilled(m *OnKilled) (out *OnKilled, werr, rerr error, pos, 
 //@   ensures result == dResume(decision)
 //@ func (SupervisionDecision).IsGraceful
 //@   ensures result == dGraceful(decision)
+
+// the two built-in strategies (C08): the decision maker is asked exactly once per failure; one-for-one targets the
+// failing child, one-for-all targets all children of the supervisor - and nothing else
+//@ func (*oneForOneStrategy).Supervise
+//@   requires strategy.decisionMaker != nil && ctx != nil
+//@   modifies gmap(decided)
+//@   ensures  gcount(decided, 0) == old(gcount(decided, 0)) + 1
+//@   ensures  targets == scChild(ctx)
+//@ func (*oneForAllStrategy).Supervise
+//@   requires strategy.decisionMaker != nil && ctx != nil
+//@   modifies gmap(decided)
+//@   ensures  gcount(decided, 0) == old(gcount(decided, 0)) + 1
+//@   ensures  targets == scChildren(ctx)
